@@ -327,6 +327,11 @@ def load_subs_roundtrip(fname, max_param, out_path):
                 for el in row:
                     if isinstance(el, float):
                         r.append("nan" if np.isnan(el) else repr(el))
+                    elif isinstance(el, dict) and use_sympy:
+                        # what the map DOES to the parameters the fitting code uses (real symbols a0..., as simplifier.convert_params builds them):
+                        # a loaded key that is not that symbol substitutes nothing
+                        real = {str(k): sympy.Symbol(str(k), real=True) for k in el}
+                        r.append({nm: str(sym.subs(el, simultaneous=True)) for nm, sym in real.items()})
                     elif isinstance(el, dict):
                         r.append({str(k): str(v) for k, v in el.items()})
                     else:
